@@ -530,6 +530,50 @@ func c20Kinds(run *ev.Run) {
 			}
 		}
 	}
+	// long values: lengths next to 64, 255/256, 4096, 65535/65536 bytes; pairs that are equal, differ only in the last byte, only in
+	// the first byte, or only in length by one; length bounds next to the value's length
+	for _, n := range []int{63, 64, 65, 255, 256, 257, 1023, 1024, 1025, 4095, 4096, 4097, 65535, 65536, 65537} {
+		base := strings.Repeat("abcdefghij", n/10+1)[:n]
+		lastDiff := base[:n-1] + "Z"
+		firstDiff := "Z" + base[1:]
+		longer := base + "k"
+		for _, pr := range [][2]string{{base, base}, {base, lastDiff}, {lastDiff, base}, {base, firstDiff}, {base, longer}, {longer, base}, {base, ""}, {"", base}} {
+			a, b := pr[0], pr[1]
+			one("WithValueEqualsCheck", fmt.Sprintf("long values: len %d vs %d", len(a), len(b)), func(c *checker.Checker, cb func()) {
+				c.WithValueEqualsCheck("v", func() string { return a }, func() string { return b }, cb)
+			}, a != b)
+		}
+		one("WithValueNotEmptyCheck", fmt.Sprintf("len %d", n), func(c *checker.Checker, cb func()) {
+			c.WithValueNotEmptyCheck("v", func() string { return base }, cb)
+		}, false)
+		one("WithValuesNotEmptyCheck", fmt.Sprintf("len %d + empty", n), func(c *checker.Checker, cb func()) {
+			c.WithValuesNotEmptyCheck(func() []string { return []string{base, base, ""} }, cb)
+		}, true)
+		for _, min := range []int{0, n - 1, n, n + 1} {
+			for _, max := range []int{0, n - 1, n, n + 1} {
+				min, max := min, max
+				want := (min > 0 && n < min) || (max > 0 && n > max)
+				one("WithValueLengthCheck", fmt.Sprintf("min=%d max=%d len=%d", min, max, n), func(c *checker.Checker, cb func()) {
+					c.WithValueLengthCheck("v", func() string { return base }, min, max, cb)
+				}, want)
+			}
+		}
+	}
+	// lists of 5..300 values with one empty entry at the first, a middle or the last position (and none)
+	for _, L := range []int{5, 8, 9, 16, 17, 32, 33, 64, 65, 128, 129, 256, 257, 300} {
+		for _, pos := range []int{-1, 0, L / 2, L - 1} {
+			l := make([]string, L)
+			for i := range l {
+				l[i] = "x"
+			}
+			if pos >= 0 {
+				l[pos] = ""
+			}
+			one("WithValuesNotEmptyCheck", fmt.Sprintf("%d values, empty at %d", L, pos), func(c *checker.Checker, cb func()) {
+				c.WithValuesNotEmptyCheck(func() []string { return l }, cb)
+			}, pos >= 0)
+		}
+	}
 	// equality is identity of the byte strings: no trimming, case folding, Unicode normalisation or NUL truncation
 	eq := []string{"", "a", "b", "a ", " a", "A", "a\x00", "\u00e9", "e\u0301", "\u00c9", "a\n", "\xff", "\ufffd"}
 	for _, a := range eq {
